@@ -21,8 +21,8 @@ SETUP = ('obj;arr;num:3ff8000000000000;add:1:2;str:x76616c7565;add:1:3;addo:0:x6
          'obj;anum:10:x7274:4000000000000000;addrefo:0:x726566:10;'                                                      # 10 obj{rt:2} (never edited), referenced from 0
          'obj;astr:12:x6b6b:x7676;deto:12:x6b6b;'                                                                          # 12 obj{}, 13 = 14 = detached string that still OWNS its key "kk"
          'str:x73747276616c;addrefo:0:x616c696173:15;'                                                                    # 15 string, referenced from 0 under the owned key "alias" (reference with valuestring and key)
-         'obj;false;addcs:17:x63736b:18;deto:17:x63736b')                                                                  # 17 obj{}, 18 = 19 = detached false that still carries the CONSTANT key "csk"
-# handles after SETUP: 0..19; live roots: 0, 5, 7, 8, 10, 12, 14, 15, 17, 19
+         'obj;false;addcs:16:x63736b:17;deto:16:x63736b')                                                                  # 16 obj{}, 17 = 18 = detached false that still carries the CONSTANT key "csk"
+# handles after SETUP: 0..18; live roots: 0, 5, 7, 8, 10, 12, 14, 15, 16, 18
 LONG = (b'a much longer value than the one that is stored ' * 3).hex()
 
 def scenarios():
@@ -38,7 +38,7 @@ def scenarios():
          # an item that already owns a key is added / replaced under another name (the old key must survive a failed call)
          'addo:5:x6e6b:14', 'addcs:5:x636b32:14', 'repo:5:x6e616d65:14', 'addo:5:k14:14', 'dup:14:1', 'dup:12:1',
          # an item that carries a constant (borrowed) key: a refused call must leave the flag and the key alone
-         'addo:5:x6e6b32:19', 'addo:5:k19:19', 'repo:5:x6e616d65:19', 'repocs:5:x6e616d65:19', 'dup:19:1', 'addrefo:5:x726b32:19']
+         'addo:5:x6e6b32:18', 'addo:5:k18:18', 'repo:5:x6e616d65:18', 'repocs:5:x6e616d65:18', 'dup:18:1', 'addrefo:5:x726b32:18']
     return s
 
 FOLLOW = 'anull:5:x6166746572;add:8:-;size:0;size:5;each:8'
